@@ -6,13 +6,16 @@ import vlib
 from runner import PropBase
 from vlib import Rng, log
 
-TOOL_TARGET = os.path.join(vlib.CACHE, "stackwalk-target")
+TOOL_TARGET = os.path.join(vlib.ALT_DIR, "stackwalk-target") if getattr(vlib, "ALT", False) else os.path.join(vlib.CACHE, "stackwalk-target")
 MODES = ["-", "h", "j", "c", "D"]
 CONFLICTS = ["hj", "jh", "hc", "hD", "jc", "cj", "jD", "Dj", "cD", "hjcD", "jm", "Dm"]
 GOOD_FILES = ["test.dmp", "linux-mini.dmp", "simple-crashpad.dmp", "pipeline-inlines-macos-segv.dmp"]
 BAD_FILES = ["invalid-parameter.dmp", "invalid-range.dmp", "invalid-record-count.dmp", "full-dump.dmp"]
 NSYNTH = 7
-FIELDS = ["input", "sym", "modes", "brief", "pretty", "feat", "rfa", "out", "cy", "log", "verbose", "stdout", "evil", "noflags"]
+FIELDS = ["input", "sym", "modes", "brief", "pretty", "feat", "rfa", "out", "cy", "log", "verbose", "stdout", "evil", "noflags", "lim", "ldi"]
+# the accepted output option sets: (modes, brief, pretty)
+ACCEPTED = [(m, b, 0) for m in ("-", "h", "D") for b in (0, 1)] + [("j", 0, p) for p in (0, 1)] + \
+           [("c", b, p) for b in (0, 1) for p in (0, 1)]
 
 
 def thorough_requested():
@@ -25,17 +28,20 @@ def thorough_requested():
 
 
 def mk(input_, sym="n", modes="-", brief=0, pretty=0, feat=9, rfa=0, out="-", cy="-", log_="-", verbose="e",
-       stdout="o", evil=0, noflags=0):
+       stdout="o", evil=0, noflags=0, lim=0, ldi=0):
     if "c" in modes and cy == "-":
         cy = "g"
-    return "%s %s %s %d %d %d %d %s %s %s %s %s %d %d" % (input_, sym, modes, brief, pretty, feat, rfa, out, cy, log_,
+    line = "%s %s %s %d %d %d %d %s %s %s %s %s %d %d" % (input_, sym, modes, brief, pretty, feat, rfa, out, cy, log_,
                                                            verbose, stdout, evil, noflags)
+    if lim or ldi:
+        line += " %d %d" % (lim, ldi)
+    return line
 
 
 def parse_case(line):
     t = line.split()
-    d = dict(zip(FIELDS, t))
-    for k in ("brief", "pretty", "feat", "rfa", "evil", "noflags"):
+    d = dict(zip(FIELDS, t + ["0", "0"][len(t) - 14:]))
+    for k in ("brief", "pretty", "feat", "rfa", "evil", "noflags", "lim", "ldi"):
         d[k] = int(d[k])
     return d
 
@@ -48,6 +54,16 @@ def parse_sink(s):
         return "n/a"
     ln, h, names = s.split(":")
     return (int(ln), h, set(names.split("+")) - {"none"})
+
+
+def exp_sizes(a):
+    """sizes of the in-process renderings reported by the harness"""
+    out = {}
+    if a.get("exp", "-") != "-":
+        for tok in a["exp"].split(","):
+            n, ln, _h = tok.split(":")
+            out[n] = int(ln)
+    return out
 
 
 def parse_answer(ans):
@@ -84,7 +100,8 @@ def documented(c):
 
 
 def io_trouble(c):
-    return c["out"] in "bu" or ("c" in c["modes"] and c["cy"] in "bu") or c["stdout"] in "up" or c["log"] in "bu"
+    return c["out"][0] in "budrf" or ("c" in c["modes"] and c["cy"][0] in "budr") or c["stdout"][0] in "up" or \
+        c["log"][0] in "budr" or c["lim"] > 0
 
 
 def sink_len(s):
@@ -93,16 +110,21 @@ def sink_len(s):
 
 class C20(PropBase):
     pid = "C20"
-    translators = []
+    translators = ["c20_dump_sequence.py"]
     coq_dirs = ["C20"]
     bins = ["c20"]
     impl_timeout = 1500
     rule = ("case = (input file spec: testdata dump | byte-mutated | truncated | minidump-synth variant | missing | empty | "
             "directory | text) x (symbol path style) x (output mode flags incl. conflicting ones) x --brief x --pretty x --features "
             "x --recover-function-args x --output-file class (none / writable / missing directory / /dev/full) x --cyborg file class "
-            "x --log-file x --verbose x stdout class (pipe / /dev/full / closed pipe). Each case = one run of the built "
+            "x --log-file x --verbose x stdout class (pipe / /dev/full / closed pipe / reader leaving after N bytes) x RLIMIT_FSIZE "
+            "x --symbols-url on a loopback server (200/404/garbage; cache/tmp usable or not) x --use-local-debuginfo; file sink "
+            "classes: writable, missing directory, /dev/full, a directory, read-only (tool run as uid 65534), FIFO whose reader "
+            "leaves after N bytes. Each case = one run of the built "
             "minidump-stackwalk binary plus the library in-process on the same bytes and options. quick: full option matrix on "
-            "test.dmp, reduced matrix on every other input, io-error and conflict families, mutated dumps; non-trivial = exit 0 "
+            "test.dmp, reduced matrix on every other input, io-error and conflict families, mutated dumps, the io-fault matrix "
+            "(12 accepted option sets x every sink x every fault x 3 report sizes), symbol server, local debuginfo, "
+            "verbose x log-file; non-trivial = exit 0 "
             "with a non-empty primary output equal to an in-process rendering; distinct = distinct case lines")
     trusted_base = [
         "Coq 8.16.1 kernel (vm_compute only in the non-vacuity Examples and the refutation witness)",
@@ -115,7 +137,9 @@ class C20(PropBase):
     assumptions = [
         "partial: what the printers write, clap's tokenisation, process exit, the panic hook, colouring and the interactive "
         "progress display are runtime behaviour exercised by the run, not covered by the theorems",
-        "--use-local-debuginfo, --symbols-url / cache options are outside the matrix (no network)",
+        "--use-local-debuginfo: DebugInfoSymbolProvider cannot be built in the harness; on x86-64 / arm64 dumps the report is checked "
+        "for status, presence and --output-file = stdout only (exact equality on every other CPU, where the flag is a no-op)",
+        "--symbols-url is exercised against the harness's loopback server only; log-file writes are not modelled",
         "the environment of the model is abstract: results of File::create, read_path, processing and of each printer call",
     ]
     manifest = {
@@ -127,13 +151,19 @@ class C20(PropBase):
                 "(c20_rejections, c20_rejected_no_report); exit status is 0, 1 or 2 and nothing else, 0 iff every planned report "
                 "was written or a pipe broke, 1 with a diagnostic and no report for read/processing errors, io errors give 1 "
                 "(c20_exit_status, c20_success_iff, c20_failure_no_report, c20_failure_has_diag, c20_failure_diag_visible, "
-                "c20_io_error_status, c20_zero_means_done_or_pipe; known: --verbose=off silences the fatal diagnostic, F-C20b). The built minidump-stackwalk binary is run over the option matrix x inputs "
+                "c20_io_error_status, c20_zero_means_done_or_pipe; known: --verbose=off silences the fatal diagnostic, F-C20b); io "
+                "faults sink by sink: a failing run in which no printer call failed renders nothing anywhere "
+                "(c20_failure_no_partial_report_partial), bytes on the primary output of a failing run arise only from an io error "
+                "after report bytes were streamed (c20_dirty_primary_only_midreport; the unconditional claim is refuted with two "
+                "witnesses, c20_failure_no_partial_report_refuted = known finding F-C20d); the call sequence of --dump is regenerated "
+                "from main.rs, pinned (c20_dump_sequence_pinned) and compared textually with the harness's copy. The built minidump-stackwalk binary is run over the option matrix x inputs "
                 "(testdata, synthesized, mutated, truncated, missing, empty, directory) and compared byte for byte with the "
                 "library called in-process (print / print_brief / print_json / the dump printers) and with the model's "
                 "prediction; an independent oracle re-checks the property on exit status, stdout, stderr and the files.",
         "note": "partial: clap's parsing, process exit, the panic hook, terminal colouring and the progress display are runtime "
                 "behaviour — exercised on the real binary, not proved. Trusted: Coq kernel; hand-written model of main.rs "
-                "(correspondence-checked); extraction + OCaml/Rust glue; the harness's copy of print_minidump_dump's call sequence. No axioms.",
+                "(correspondence-checked); extraction + OCaml/Rust glue; translate/c20_dump_sequence.py (regexes tying the harness's copy of "
+                "print_minidump_dump to main.rs). --use-local-debuginfo on x86-64/arm64 dumps is checked for status and presence only. No axioms.",
     }
 
     # ------------------------------------------------------------------ the tool binary
@@ -164,7 +194,7 @@ class C20(PropBase):
         self.build_tool("release")
 
     def impl_cmd(self, exe, profile):
-        return [exe, self.build_tool(profile)]
+        return [exe, self.build_tool(profile), vlib.REPO]
 
     # ------------------------------------------------------------------ cases
     def gen_cases(self, tier, seed):
@@ -231,16 +261,53 @@ class C20(PropBase):
                 brief = rng.below(2) if modes != "j" else 0
                 pretty = rng.below(2) if modes in "jc" else 0
                 add("mutated", mk(inp, rng.choice(["n", "p"]), modes, brief, pretty, rng.choice([0, 2, 9]), 0, rng.choice(["-", "g"])))
+        # H. io faults as a systematic dimension: every accepted option set x every sink x every kind of fault,
+        #    on reports below and above the usual buffer sizes (tiny synth dump, test.dmp, the big sample with symbols)
+        for inp, sym in (("S:0", "n"), ("F:test.dmp", "p"), ("F:pipeline-inlines-macos-segv.dmp", "p")):
+            for modes, brief, pretty in ACCEPTED:
+                def io(fam="io_matrix", **kw):
+                    add(fam, mk(inp, sym, modes, brief, pretty, 9, 0, **kw))
+                for so in ("u", "p", "p1000"):
+                    io(stdout=so)
+                for out in ("u", "b", "d", "r", "f100", "f20000"):
+                    io(out=out)
+                for lim in (100, 9000):
+                    io(out="g", lim=lim)
+                for lg in ("u", "b", "d", "r"):
+                    io(log_=lg)
+                if modes == "c":
+                    for cy in ("u", "b", "d", "r"):
+                        io(cy=cy, out=rng.choice(["-", "g"]))
+                    for lim in (100, 9000):
+                        io(lim=lim)
+        # I. --symbols-url on the loopback server (200 / 404 / garbage), usable and unusable cache / tmp directories
+        for inp in ("F:test.dmp", "S:4"):
+            for sym in ("U2", "U4", "Ug", "U2c", "U2t", "U4c", "Ugt"):
+                for modes in ("-", "j", "c"):
+                    add("symbols_url", mk(inp, sym, modes, rng.below(2) if modes != "j" else 0, rng.below(2) if modes != "-" else 0,
+                                          rng.choice([0, 2, 9]), 0, rng.choice(["-", "g"])))
+        # J. --use-local-debuginfo on x86 / amd64 / arm64 dumps, with and without a system info stream
+        for inp in ("F:test.dmp", "F:linux-mini.dmp", "F:simple-crashpad.dmp", "S:0", "S:1", "S:5", "S:6", "X:missing"):
+            for modes in ("-", "j", "D", "c"):
+                for sym in ("n", "p"):
+                    add("local_debuginfo", mk(inp, sym, modes, 0, 0, 9, 0, rng.choice(["-", "g"]), ldi=1))
+        # K. --verbose levels with and without --log-file, on succeeding and failing runs
+        for verbose in ("off", "error", "warn", "info", "debug", "trace"):
+            for lg in ("-", "g"):
+                for inp in ("F:test.dmp", "F:invalid-range.dmp", "X:missing"):
+                    for modes, pretty in (("-", 0), ("j", 0), ("h", 1)):
+                        add("verbose_log", mk(inp, "n", modes, 0, pretty, 9, 0, "-", "g", lg, verbose))
         if thorough:
             # G. logging options, no-op flags, evil json, both symbol path styles at once
             for _ in range(1500):
                 inp = rng.choice(inputs + ["F:test.dmp"] * 6)
                 modes = rng.choice(MODES + ["hj"])
-                add("logging_and_extras", mk(inp, rng.choice(["n", "p", "s", "a", "b"]), modes, rng.below(2), rng.below(2),
-                                             rng.choice([0, 1, 2, 9]), rng.below(2), rng.choice(["-", "g", "g", "b"]),
-                                             rng.choice(["g", "g", "b"]), rng.choice(["-", "g", "g", "b"]),
+                add("logging_and_extras", mk(inp, rng.choice(["n", "p", "s", "a", "b", "U2", "U4", "Ug", "U2c"]), modes, rng.below(2), rng.below(2),
+                                             rng.choice([0, 1, 2, 9]), rng.below(2), rng.choice(["-", "g", "g", "b", "d", "r", "u", "f500"]),
+                                             rng.choice(["g", "g", "b", "d", "u"]), rng.choice(["-", "g", "g", "b", "r"]),
                                              rng.choice(["e", "off", "error", "warn", "info", "debug", "trace"]),
-                                             rng.choice(["o", "o", "o", "u", "p"]), 1 if rng.chance(1, 6) else 0, rng.below(4)))
+                                             rng.choice(["o", "o", "o", "u", "p"]), 1 if rng.chance(1, 6) else 0, rng.below(4),
+                                             rng.choice([0, 0, 0, 64, 3000]), rng.below(2)))
         return cases, dist, False
 
     # ------------------------------------------------------------------ correspondence is done in extra()
@@ -292,9 +359,18 @@ class C20(PropBase):
             return "the library panicked in-process on this input (the tool exited with status %s)" % ex
         primary = stdout if c["out"] == "-" else out
         pname = "standard output" if c["out"] == "-" else "the output file"
+        # --use-local-debuginfo on x86-64 / arm64 dumps adds DebugInfoSymbolProvider, which the harness cannot build
+        # (feature of minidump-unwind not enabled in the harness crate): the report is then only checked for
+        # presence and, across cases, for equality between --output-file and standard output
+        ldi_unpredictable = bool(c["ldi"]) and a.get("cpu") in ("amd64", "arm64") and prim not in ("D", "DB")
         if ex == "0":
-            if c["stdout"] == "p" and c["out"] == "-":
-                return None                    # the reader went away: a silent status 0 is the documented behaviour
+            gone = (c["stdout"][0] == "p" and c["out"] == "-") or c["out"][0] == "f"
+            if gone and lib in (("O", "P") if prim in ("D", "DB") else ("O",)):
+                # the reader went away: a silent status 0 is the documented behaviour (main.rs: broken pipe ignored);
+                # whatever did get through must be the beginning of the right report
+                if isinstance(primary, tuple) and primary[0] and not ({prim, prim + "<"} & primary[2]) and not ldi_unpredictable:
+                    return "%s received %d bytes that are not a prefix of the library's %s rendering" % (pname, primary[0], prim)
+                return None
             need = ("O", "P") if prim in ("D", "DB") else ("O",)
             if lib not in need:
                 return "status 0 although the library fails on this input (class %s)" % lib
@@ -304,7 +380,7 @@ class C20(PropBase):
                 return "status 0 but %s was not created" % pname
             if primary[0] == 0:
                 return "status 0 with an empty report on %s" % pname
-            if prim not in primary[2]:
+            if prim not in primary[2] and not ldi_unpredictable:
                 return "%s is not the library's %s rendering for these options (equals: %s)" % (
                     pname, prim, "+".join(sorted(primary[2])) or "none of the in-process renderings")
             if c["out"] != "-" and sink_len(stdout):
@@ -312,7 +388,7 @@ class C20(PropBase):
             if sec is not None:
                 if cy is None or cy == "n/a":
                     return "status 0 but the --cyborg file was not written"
-                if sec not in cy[2]:
+                if sec not in cy[2] and not ldi_unpredictable:
                     return "the --cyborg file is not the library's %s rendering (equals: %s)" % (sec, "+".join(sorted(cy[2])) or "none")
             elif cy is not None:
                 return "a --cyborg file exists although --cyborg was not given"
@@ -324,9 +400,14 @@ class C20(PropBase):
             return "status 1 for --dump although the library reads this input"
         for nm, s in outputs:
             if sink_len(s):
-                if io_trouble(c) and lib == "O":
-                    continue                   # an io error may interrupt the run after a complete first report (cyborg)
-                return "status 1 but %d bytes of report on %s" % (sink_len(s), nm)
+                if nm == "the cyborg file" and any(sink_len(x) for _n, x in outputs[:2]):
+                    continue                   # judged on the primary output below / above
+                midreport = ""
+                want = sec if nm == "the cyborg file" else prim
+                if io_trouble(c) and lib in ("O", "P") and isinstance(s, tuple) and (ldi_unpredictable or ({want, str(want) + "<"} & s[2])):
+                    # F-C20c: the printers stream; an io error after the first bytes cannot take them back
+                    midreport = " (io error after report bytes were streamed)"
+                return "status 1 but %d bytes of report on %s%s" % (sink_len(s), nm, midreport)
         if stderr == 0 and not (c["log"] == "g" and logf):
             return "status 1 without a diagnostic on standard error" + (" (--verbose=off)" if c["verbose"] == "off" else "")
         return None
@@ -346,8 +427,10 @@ class C20(PropBase):
                 a = parse_answer(ans)
                 if a["lib"] in ("R", "P", "O"):
                     pred = model[i].split("|")["RPO".index(a["lib"])].split(";")
-                    compared += 1
                     bad = self.compare(c, a, pred)
+                    if bad == "skip":
+                        continue
+                    compared += 1
                     if bad:
                         mism += 1
                         vio.append({"case": case, "profile": prof, "found_input": True,
@@ -374,6 +457,22 @@ class C20(PropBase):
 
     def compare(self, c, a, pred):
         p_exit, p_stdout, p_out, p_cy, p_log, p_sd, p_ld, p_rec = pred
+        _rej, prim0, _sec = documented(c)
+        if c["ldi"] and a.get("cpu") in ("amd64", "arm64"):
+            return "skip"      # DebugInfoSymbolProvider is outside the model and the harness
+        if (c["out"][0] == "f" or (c["out"] == "-" and len(c["stdout"]) > 1 and c["stdout"][0] == "p")) and \
+                exp_sizes(a).get(prim0, 0) <= 70000:
+            return "skip"      # the report fits into the pipe buffer: whether the writer notices the reader leaving is a race
+        if c["lim"]:
+            # the model is asked with "every regular file fails after some bytes"; that is what happens only where
+            # the first report written to a file is longer than the limit
+            sizes = exp_sizes(a)
+            _rej, prim, sec = documented(c)
+            first = prim if c["out"] != "-" else sec
+            if first is None or sizes.get(first, 0) <= c["lim"]:
+                return "skip"
+            if c["log"] != "-" and c["verbose"] not in ("e", "off", "error"):
+                return "skip"
         if a["exit"] != p_exit:
             return "exit status %s, model %s" % (a["exit"], p_exit)
         for nm, got, want in (("stdout", a["stdout"], p_stdout), ("output file", a["out"], p_out), ("cyborg file", a["cy"], p_cy)):
@@ -381,7 +480,7 @@ class C20(PropBase):
             if s == "n/a" or "!" in want:
                 continue
             if want == "-":
-                if s is not None:
+                if s is not None and not (nm == "output file" and c["out"][0] == "f" and s[0] == 0):
                     return "%s exists (%s), model: not created" % (nm, got[:40])
                 continue
             if s is None:
@@ -396,6 +495,13 @@ class C20(PropBase):
                 if s[0] == 0:
                     return "%s empty, model: the manual" % nm
                 continue
+            if want.endswith("~"):
+                base = want[:-1]
+                w = base + (p_rec if base in ("H", "HB", "J", "JP") else "")
+                pipe = (nm == "stdout" and c["stdout"][0] == "p") or (nm == "output file" and c["out"][0] == "f")
+                if (w + "<") in s[2] or (pipe and (w in s[2] or s[0] == 0)):
+                    continue
+                return "%s equals %s, model: a prefix of %s" % (nm, "+".join(sorted(s[2])) or "no rendering", w)
             w = want + (p_rec if want in ("H", "HB", "J", "JP") else "")
             if w not in s[2]:
                 return "%s equals %s, model: %s" % (nm, "+".join(sorted(s[2])) or "no rendering", w)
